@@ -13,6 +13,8 @@ var decided = map[string][]string{
 		"getBounds / GetBounds64: every vertex inside the returned rectangle, each side attained by some vertex, Rect64{} for the empty path",
 		"Area64: loop accumulates the exact shoelace sum while it stays within int64; result*2 == shoelace sum (decimal contract); IsPositive64 == (sum >= 0); AreaPaths64 sums path areas",
 		"PointInPolygon: index safety for every polygon length, len < 3 => IsOutside",
+		"PointInPolygon: at each of the three IsOn returns the point lies on the closed polygon edge being examined (exact integer statement; edge = polygon[i-1 cyclically], polygon[i]); the scan keeps the vertex before the scan position on the current side of the level or on it",
+		"exact specifications of the small predicates and constructors in core.go / generics.go (Rect64 Contains/Intersects/IsEmpty/MidPoint/AsPath, NewRect64Invalid, Point64.Equals, absInt, getEdgesForPt, ...)",
 	},
 	"C15": {
 		"TrimCollinear64: all index expressions in range for every length; all four loops terminate",
@@ -25,27 +27,38 @@ var decided = map[string][]string{
 		"SimplifyPath64/D: index safety, preconditions of getNext/getPrior at every call, len < 4 returns the argument, result vertices are input vertices, open end points kept for epsilon^2 < MaxFloat64",
 		"SimplifyPaths64/D: path by path",
 		"PerpendicDistFromLineSqr64 == cross^2/|line|^2, no overflow on the 2^29 domain; translation invariance and s^2 scaling of that value (lemmas)",
+		"PerpendicDistFromLineSqr64 in rounded float arithmetic: a point on the line gets exactly 0, a point off the line a positive value, on the whole 2^29 domain (F44 repaired); value exact whenever the cross product fits 2^53",
 	},
 	"C01": {
 		"contribution rule: isContributingClosed == (membership of the requested boolean combination differs across the edge), all clip types x fill rules x path types x windings",
 		"winding hand-over in setWindCountForClosedPathEdge (all branches) and edge-by-edge accumulation of the other type's winding",
 		"winding transfer across an intersection in intersectEdges (same type, other type, EvenOdd and non-EvenOdd)",
 		"integer primitives on the 2^29 domain: CrossProduct, dotProduct64, isCollinear, getSegmentIntersectPt (parallel test, box), getDx",
+		"processIntersectList: crossings of one beam are processed bottom-up, ties left to right (sort.Slice modelled by its comparator); only neighbouring edges are crossed; both edges move to the crossing; a join made at a crossing needs the crossing on the neighbour's line",
+		"insertLocalMinimaIntoAEL: bound towards prev winds -1, towards next +1, the bound leaving to the left is inserted left, the right bound directly right of it with the same winding counts",
+		"doHorizontal: the horizontal advances to each edge it crosses; no edge beyond its span is crossed unless it ends at its maximum; doMaxima / updateEdgeIntoAEL / doTopOfScanbeam: edge-advance and open-end clauses; buildIntersectList: only out-of-order pairs are recorded, the overtaking edge moves directly in front of the overtaken one",
+		"addPathsToVertexList: up-to-down turn = local maximum, down-to-up turn = local minimum (registered once), direction kept between turns; closed paths start in the direction of the nearest predecessor on another level",
+		"isValidAelOrder (verified, no longer trusted): larger X goes right; at equal X the turn at the newcomer's bottom decides",
+		"exact specifications of the sweep's small predicates (isHotEdge, isOpen, isFront, isHorizontal, isHeading*Horz via the infinity constants, isMaxima, nextVertex, ...)",
 	},
 	"C19": {
 		"the boolean table satisfies the set identities pointwise (disjoint decomposition of Union, Xor = Union minus Intersection, Difference = subject minus Intersection, [U]+[I] = [s]+[c])",
 		"contribution rule shared with C01",
 		"UnionPaths64 / UnionWithClip / IntersectWithClip / DifferenceWithClip / XorWithClip wrappers pass the right clip type; UnionPaths64 uses a nil clip",
+		"BooleanOpPaths64 / BooleanOpPolyTree64 / BooleanOpPathsD / BooleanOpPolyTreeD wiring: subject added as closed Subject paths, clip as closed Clip paths, requested clip type and fill rule executed (local triples around the engine calls)",
 	},
 	"C09": {
 		"isContributingOpen is the property's sentence verbatim (per clip type, fill rule applied to windings)",
 		"setWindCountForOpenPathEdge counts exactly the closed subject edges / clip edges to the left, edge by edge",
+		"intersectEdges open/closed crossing: an open path is cut only at a closed edge that bounds a filled region under the fill rule (+1 Positive, -1 Negative, +-1 otherwise), outside Union only at clip edges, in Union only at contributing edges; the closed edge is untouched",
+		"addPathsToVertexList: an open path's first vertex carries OpenStart (and LocalMax when it starts downwards); clearSolutionOnly / reset keep hasOpenPaths and the configuration flags",
 	},
 	"C07": {
 		"ScalePathDToPath64 / ScalePath64ToPathD / Paths variants: element-wise quantisation and scaling",
 		"precision-range panic exactly when documented: checkPrecision, NewClipperD, TrimCollinearD, MinkowskiSumD/DiffD, RectClipPathsD, RectClipLinesPathsD",
 		"TrimCollinearD, MinkowskiSumD/DiffD, RectClipPathsD, RectClipLinesPathsD == unscale o 64-bit operation o scale",
 		"NewClipperD wires scale = 10^p and invScale = 1/scale",
+		"clipperD.AddPaths hands the integer engine exactly ScalePathsDToPaths64(paths, scale) with the same path type and open flag; clipperD.ExecuteOC divides every closed and open result path by the scale, path by path; BooleanOpPathsD / BooleanOpPolyTreeD build the engine for the requested precision (default 2)",
 	},
 	"C08": {
 		"minkowskiInternal: exact quad count, every quad is the parallelogram of a (path edge, pattern edge) pair built from path[i] +/- pattern[j], index/capacity/overflow safety",
@@ -55,6 +68,7 @@ var decided = map[string][]string{
 		"translation invariance and s^2 scaling of cross/dot products and perpendicular distance (lemmas)",
 		"productsAreEqual / isCollinear exact up to 2^61 when no factor equals 1",
 		"CrossProduct overflow-free and sign-exact up to 2^30; getDx; checkCastInt64",
+		"isClockwise (rectangle clipper) overflow-free up to 2^61; GetLowestPathInfo finds a lowest path wherever the paths lie (no sentinel depends on the sign of Y)",
 	},
 	"C03": {
 		"panic-freedom (index, slice bounds, nil dereference, division by zero, make size, explicit panic) of the functions listed under functions_under_contract, for all inputs satisfying the stated preconditions",
@@ -65,19 +79,26 @@ var decided = map[string][]string{
 		"buildPath: degenerate rings rejected, no two consecutive emitted vertices equal, closed 3-vertex result rejected iff very small triangle",
 		"ptsReallyClose, isVerySmallTriangle, isValidClosedPath exact",
 		"buildPaths: records routed by isOpen, records without points skipped",
+		"cleanCollinear: a vertex leaves a ring only if it repeats a neighbour or is collinear with its neighbours (and preserve-collinear permits it); a vertex the scan passes differs from both neighbours; points are never moved",
+		"processHorzJoins: two rings welded into one leave the second ring without points; convertHorzSegsToJoins: joins only for overlapping segments of opposite direction, at most one per pair; executeInternal: horizontal segments are consumed before the sweep leaves their scanline",
+		"checkJoinLeft/Right: at a crossing a join needs the crossing point on the neighbour's line",
 	},
 	"C04": {
 		"AddChild: fresh child with parent == receiver and polygon == argument, appended exactly once, siblings untouched",
 		"Level / IsHole for depth 0, 1, 2 and the per-iteration step; Clear; Count",
 		"recursiveCheckOwners never re-attaches a record that already has a node",
+		"addLocalMaxPoly (tree mode): a ring closed at the far left has no owner; otherwise it is owned by the ring of the hot closed edge directly to its left",
+		"checkSplitOwner: when no owner is found every live listed split has been visited, including the splits of a newly visited live split (recursion contract); marks persist; getRealOutRec / isValidOwner / setOwner / getPrevHotEdge walkers",
 	},
 	"C05": {
 		"StripDuplicates functional contract; NewGroup / AddPaths / NewClipperOffset wiring",
 		"|delta| < 0.5 copies the (stripped) input paths; effective delta sign by orientation; paired fill rule and reverse flag for the final union",
 		"getUnitNormal, buildNormals, getPerpendic, doMiter, doBevel, intersectPoint, reflectPoint geometry (real model)",
+		"Group.GetLowestPathInfo: a group with a path of non-zero area always has a lowest path; doGroupOffset: a single point becomes the square of half-width ceil(delta)",
 	},
 	"C10": {
 		"StripDuplicates keeps both end points of an open path; buildNormals; doBevel end-cap formula; open groups use |delta| and are never reversed",
+		"doGroupOffset: a single point with a non-round end type becomes the axis-parallel square of half-width ceil(delta) around it",
 	},
 	"C06": {
 		"getLocation total specification",
@@ -85,20 +106,25 @@ var decided = map[string][]string{
 		"fast paths of RectClip64.Execute: inside => unchanged, beside => nothing, empty rectangle => nothing",
 		"NewRectClip64 wiring",
 		"index safety of executeInternal, getNextLocation, getIntersection, addCorner, addCornerLocation; getNextLocation leaves the previous side; getIntersection reports a side when it finds a crossing",
+		"getSegmentIntersection: an end point lying on the line of an axis-parallel rectangle edge is a hit exactly when it lies on that edge (both end points; a segment along the edge line is no crossing)",
+		"isClockwise: opposite sides turn by the sign of the exact cross product through the mid-point; exact specs of getEdgesForPt, isHeadingClockwise, hasHorz/VertOverlap, areOpposites, Rect64 helpers",
 	},
 	"C11": {
 		"getLocation / getSegmentIntersection / getIntersection / getNextLocation as in C06; NewRectClip64 passes the line path extractor; RectClipLinesPaths64 empty cases and composition with RectClipLines64.Execute",
 		"executeInternalPath64: every index expression in range for every open path (incl. paths lying on the rectangle boundary); RectClipLines64.Execute panic-free",
+		"executeInternalPath64: the walk starts at the second vertex (no leading segment is skipped) after the look-ahead over boundary vertices; getSegmentIntersection end-point clauses as in C06",
 	},
 	"C12": {
 		"every public Execute* entry point re-establishes the idle state; constructors start idle; reset() re-initialises the per-run scratch fields",
 		"succeeded, fillRule, clipType, currentBotY, currentLocMin, sel, usingPolyTree are written before read in every entry point's call tree",
 		"pre-call contents of solution arguments are dead (replaced, not appended to)",
 		"no exported function writes caller-supplied slices; AddPaths variants retain none; no package-level state",
+		"clearSolutionOnly and reset keep what was added and configured (hasOpenPaths, sorted flag, preserve-collinear, reverse-solution, using-tree); reset sorts the minima bottom-up; a solution argument is never carved out of another caller-supplied slice; AddPaths wrappers pass paths, type and flag unchanged",
 	},
 	"C17": {
 		"repeat calls are functions of their arguments: no package-level state, map iteration, clock, random source, environment access or address-as-integer in any function",
 		"sort comparators (where listed under functions_under_contract) are total, antisymmetric orders",
+		"reset: local minima sorted by Y descending (comparator modelled); processIntersectList order; horzSegSort and the sweep-driver contracts listed under C01/C02",
 	},
 	"C18": {
 		"no function writes or takes the address of a package-level variable (transitively)",
